@@ -13,7 +13,9 @@ Twisted, emulated by the harness exactly as the model assumes (Client/ConnectAut
   T4 (connectionLost follows loseConnection) is NOT emulated: the scenario decides whether and when it comes.
 
 Scenario (JSON): {'cah': 1, 'unix': bool, 'lines': [hex of a server line without delimiter, ...], 'hello': N|U|E|G|W|-,
-  'name': str, 'part': permille of the Hello answer that is sent (1000 = all), 'trail': hex of bytes after it,
+  'before': codes of messages sent BEFORE the answer (S = a signal, W = a reply to another call), 'after': codes of messages
+  sent AFTER it (S, W, X = a complete 16-byte message of unknown type: rawDBusMessageReceived raises),
+  'name': str, 'part': permille of the binary part that is sent (1000 = all), 'trail': hex of (< 16) bytes after it,
   'cuts': [permille positions at which the byte script is cut into reads], 'lost': [read index before which
   connectionLost is delivered, ...] (len(reads) = after the last read), 'clean': 'accept' | 'reject-all' | None}
 
@@ -82,42 +84,77 @@ class Fixture:
 # ----------------------------------------------------------------------------------------------------------------
 # the byte script
 
-def hello_answer(M, sc, serial):
-    """(bytes of the answer to Hello that are sent, outcome for the model, the complete answer)."""
+RAISING = b'l\x07\x00\x01' + b'\x00' * 12       # a complete message of an unknown type: parseMessage raises
+
+
+def n_built(sc):
+    """How many messages the harness constructs for this scenario (each takes a serial from the process-wide counter)."""
+    return (len(sc.get('before', '')) + (1 if sc['hello'] in ('N', 'U', 'E', 'W') else 0)
+            + sum(1 for c in sc.get('after', '') if c in 'SW'))
+
+
+def build_binary(M, sc, serial):
+    """The binary part of the script.  Returns (bytes, outcome for the model, the prefix of the binary stream at which
+    that outcome is complete, the prefix at which binary mode raises AFTER the answer, offset of the end of the answer)."""
+    msg = M.message
+
+    def item(c):
+        if c == 'S':
+            return msg.SignalMessage('/org/freedesktop/DBus', 'NameAcquired', 'org.freedesktop.DBus',
+                                     signature='s', body=[':1.42']).rawMessage
+        if c == 'W':          # a reply to another call: not the answer to Hello
+            return msg.MethodReturnMessage(serial + 7, body=[':1.9'], signature='s').rawMessage
+        if c == 'X':
+            return RAISING
+        raise ValueError(c)
+    before = b''.join(item(c) for c in sc.get('before', ''))
     k = sc['hello']
     if k == 'N':
-        data = M.message.MethodReturnMessage(serial, body=[sc.get('name', ':1.42')], signature='s').rawMessage
+        ans = msg.MethodReturnMessage(serial, body=[sc.get('name', ':1.42')], signature='s').rawMessage
     elif k == 'U':
-        data = M.message.MethodReturnMessage(serial).rawMessage
+        ans = msg.MethodReturnMessage(serial).rawMessage
     elif k == 'E':
-        data = M.message.ErrorMessage('org.freedesktop.DBus.Error.LimitsExceeded', serial,
-                                      body=['too many connections'], signature='s').rawMessage
-    elif k == 'W':          # a reply to another call: not the answer to Hello
-        data = M.message.MethodReturnMessage(serial + 7, body=[':1.9'], signature='s').rawMessage
-    elif k == 'G':          # a complete 16-byte message of an unknown type: rawDBusMessageReceived raises
-        M.message.MethodCallMessage('/verif', 'KeepCount')
-        data = b'l\x07\x00\x01' + b'\x00' * 12
+        ans = msg.ErrorMessage('org.freedesktop.DBus.Error.LimitsExceeded', serial,
+                               body=['too many connections'], signature='s').rawMessage
+    elif k == 'W':
+        ans = item('W')
+    elif k == 'G':
+        ans = RAISING
     else:
-        M.message.MethodCallMessage('/verif', 'KeepCount')
-        data = b''
+        ans = b''
+    after_items = [item(c) for c in sc.get('after', '')]
+    full = before + ans + b''.join(after_items)
+    outcome, dec, crash, hello_end = '-', b'', b'', None
+    if k in ('N', 'U', 'E'):
+        outcome, dec, hello_end = k, before + ans, len(before + ans)
+        if 'X' in sc.get('after', ''):
+            i = sc['after'].index('X')
+            crash = before + ans + b''.join(after_items[:i + 1])
+    elif k == 'G':
+        outcome, dec = 'G', before + ans
+    elif 'X' in sc.get('after', ''):
+        # no answer to Hello at all, then bytes on which binary mode raises: for the model this IS the outcome `garbage`
+        i = sc['after'].index('X')
+        outcome, dec = 'G', before + ans + b''.join(after_items[:i + 1])
     part = sc.get('part', 1000)
-    sent = data[:len(data) * part // 1000] if part < 1000 else data
-    complete = len(sent) == len(data) and k in ('N', 'U', 'E', 'G')
-    return sent, (k if complete else '-'), data
+    if part < 1000:
+        sent = full[:len(full) * part // 1000]
+    else:
+        sent = full + bytes.fromhex(sc.get('trail', ''))
+    return sent, outcome, dec, crash, hello_end
 
 
 def build_reads(M, sc, serial):
     line_part = b''.join(bytes.fromhex(h) + CRLF for h in sc['lines'])
-    answer, outcome, n = hello_answer(M, sc, serial)
-    whole = len(answer) == len(n) and len(n) > 0          # bytes after the answer only when it was sent completely
-    data = line_part + answer + (bytes.fromhex(sc.get('trail', '')) if whole else b'')
+    sent, outcome, dec, crash, hello_end = build_binary(M, sc, serial)
+    data = line_part + sent
     cuts = sorted({len(data) * c // 1000 for c in sc.get('cuts', [])} - {0, len(data)})
     reads, prev = [], 0
     for c in cuts + [len(data)]:
         if c > prev:
             reads.append(data[prev:c])
             prev = c
-    return reads, outcome, n, len(line_part) + len(answer) if outcome != '-' else None
+    return reads, outcome, dec, crash, (len(line_part) + hello_end if hello_end is not None else None)
 
 
 def steps_of(sc, reads):
@@ -149,12 +186,24 @@ def canon_line(line):
 
 
 def execute(F, sc):
+    """Run the scenario; the serial the Hello call will carry is predicted from a probe message.  If the prediction was
+    wrong (the client sent something else first) the scenario is run once more with the observed offset."""
+    o = execute_once(F, sc, 0)
+    if o.serial_off:
+        o = execute_once(F, sc, o.serial_off)
+        if o.serial_off:
+            o.skip = 'the Hello call carries serial %r, the script was written for %r (twice)' % (o.hello_serial, o.serial)
+    return o
+
+
+def execute_once(F, sc, delta):
     M = F.M
     o = Obs()
     o.skip = None
+    o.serial_off = 0
     probe = M.message.MethodCallMessage('/verif', 'Probe')
-    serial = probe.serial + 2            # the probe, the one message built by hello_answer, then the Hello call
-    reads, outcome, n, hello_end = build_reads(M, sc, serial)
+    serial = probe.serial + 1 + n_built(sc) + delta     # the probe, the messages of the script, then the Hello call
+    reads, outcome, n, crash, hello_end = build_reads(M, sc, serial)
     steps = steps_of(sc, reads)
     fac = M.client.DBusClientFactory()
     d = fac.getConnection()
@@ -266,30 +315,33 @@ def execute(F, sc):
     o.events = ev
     o.auth = bool(getattr(proto, '_authenticated', False))
     o.disc = bool(tr.disconnecting)
-    o.eff, o.outcome, o.n, o.hello_end, o.serial = eff, outcome, n, hello_end, serial
+    o.eff, o.outcome, o.n, o.crash, o.hello_end, o.serial = eff, outcome, n, crash, hello_end, serial
     o.proto = proto
-    if hello_serial is not None and hello_serial != serial and sc['hello'] in ('N', 'U', 'E'):
-        o.skip = 'the Hello call got serial %r, the script was written for %r' % (hello_serial, serial)
+    o.hello_serial = hello_serial
+    if hello_serial is not None and hello_serial != serial:
+        o.serial_off = delta + hello_serial - serial
     return o
 
 
 def impl_view(o):
     fired = ','.join(k for k, _ in o.fired) or '-'
     fired_at = str(o.fired[0][1]) if o.fired else '-'
-    return '%s | auth=%d disc=%d closedAt=%s firedAt=%s fired=%s delivered=%d' % (
-        ' '.join(o.events), o.auth, o.disc, '-' if o.closed_at is None else o.closed_at, fired_at, fired, o.delivered)
+    return '%s | auth=%d disc=%d closedAt=%s firedAt=%s fired=%s raised=%d delivered=%d' % (
+        ' '.join(o.events), o.auth, o.disc, '-' if o.closed_at is None else o.closed_at, fired_at, fired,
+        1 if any(r.startswith('binary:') for r in o.raised) else 0, o.delivered)
 
 
 def model_line(F, sc, o):
-    return 'cah r %d %s %s %s %s' % (1 if sc['unix'] else 0, F.user.hex() or '-', o.n.hex() or '-', o.outcome, ' '.join(o.eff))
+    return 'cah r %d %s %s %s %s %s' % (1 if sc['unix'] else 0, F.user.hex() or '-', o.n.hex() or '-', o.outcome,
+                                       o.crash.hex() or '-', ' '.join(o.eff))
 
 
 def model_view(line):
-    """Drop the model-internal fields (phase, generated events, hello, lost)."""
+    """Drop the model-internal fields (phase, generated events, hello, lost, raised)."""
     if ' | ' not in line:
         return line
     head, tail = line.split(' | ', 1)
-    keep = [t for t in tail.split(' ') if t.split('=')[0] in ('auth', 'disc', 'closedAt', 'firedAt', 'fired', 'delivered')]
+    keep = [t for t in tail.split(' ') if t.split('=')[0] in ('auth', 'disc', 'closedAt', 'firedAt', 'fired', 'raised', 'delivered')]
     return head + ' | ' + ' '.join(keep)
 
 
@@ -359,6 +411,7 @@ def hx(b):
 
 
 REJECTS = [b'REJECTED', b'REJECTED EXTERNAL DBUS_COOKIE_SHA1 ANONYMOUS', b'ERROR', b'ERROR "not today"', b'REJECTED ']
+OKS_CLEAN = [b'OK ' + GUID]            # the GUID of the DBus specification: 32 hex digits
 OKS_GOOD = [b'OK ' + GUID, b'OK  ' + GUID + b' ', b'OK 12ab']
 OKS_BAD = [b'OK', b'OK ', b'OK xyz', b'OK 123', b'OK\t' + GUID]
 DATAS = [b'DATA', b'DATA ' + b'ctx 7 feedface'.hex().encode(), b'DATA zz', b'DATA abc', b'DATA ' + b'a/b 7 c'.hex().encode(),
@@ -379,6 +432,10 @@ def gen_cuts(rng):
 def gen_hello(rng, sc, allow_none=True):
     sc['hello'] = rng.choice(['N', 'N', 'N', 'E', 'U', 'G', 'W'] + (['-'] if allow_none else []))
     sc['name'] = rng.choice([':1.42', ':1.7', '', 'org.example.NotUnique'])
+    r = rng.random()
+    sc['before'] = '' if r < 0.75 else ''.join(rng.choice('SW') for _ in range(rng.randint(1, 2)))
+    r = rng.random()
+    sc['after'] = '' if r < 0.6 else ''.join(rng.choice('SWXX') for _ in range(rng.randint(1, 3)))
     sc['part'] = 1000 if rng.random() < 0.75 else rng.randrange(0, 1000)
     sc['trail'] = hx(bytes(rng.randrange(256) for _ in range(rng.randint(0, 12)))) if rng.random() < 0.3 else ''
 
@@ -388,7 +445,7 @@ def gen_accept(rng, nmech):
     unix = rng.random() < 0.5
     k = rng.randrange(nmech)
     lines = [rng.choice(REJECTS[:4]) for _ in range(k)]
-    lines.append(rng.choice(OKS_GOOD))
+    lines.append(rng.choice(OKS_CLEAN))
     if unix:
         lines.append(rng.choice([b'AGREE_UNIX_FD', b'ERROR', b'ERROR "no fd passing"']))
     sc = {'cah': 1, 'unix': unix, 'lines': [hx(l) for l in lines], 'cuts': gen_cuts(rng), 'lost': [], 'clean': 'accept'}
@@ -504,6 +561,13 @@ def fixed_scenarios(nmech):
                                 'cuts': [], 'lost': lost, 'clean': 'accept'})
                     out.append({'cah': 1, 'unix': unix, 'lines': rej * k + [ok] + fd, 'hello': hello, 'name': ':1.42',
                                 'cuts': list(range(0, 1000, 37)), 'lost': lost, 'clean': 'accept'})
+        for hello, before, after in (('N', '', 'X'), ('E', '', 'X'), ('U', '', 'SX'), ('N', 'S', 'SXS'), ('N', 'W', ''),
+                                     ('-', 'S', 'X'), ('W', '', 'X'), ('E', 'SW', 'WX')):
+            # messages before the answer; bytes on which binary mode raises AFTER the answer (T3 on a ready / failed connection)
+            for cuts in ([], [990], list(range(0, 1000, 41))):
+                for lost in ([], [99]):
+                    out.append({'cah': 1, 'unix': unix, 'lines': [ok] + fd, 'hello': hello, 'name': ':1.42', 'before': before,
+                                'after': after, 'trail': hx(b'xx'), 'cuts': cuts, 'lost': lost, 'clean': 'accept'})
         for lost in ([], [99], [nmech]):                        # reject all: silence afterwards / the follow-up
             out.append({'cah': 1, 'unix': unix, 'lines': rej * nmech, 'hello': '-', 'cuts': [], 'lost': lost,
                         'clean': 'reject-all'})
@@ -532,10 +596,10 @@ def check(ctx, F, scenarios, stream=STREAM):
     for sc, o in zip(scenarios, runs):
         ctx.case(stream, sample=sc, nontrivial=bool(sc['lines']) or bool(sc.get('lost')))
         if o.skip is not None:
-            ctx.stat('cah:skipped')
-            if not getattr(ctx, '_cah_skip_noted', False):
-                ctx._cah_skip_noted = True
-                ctx.note('ADVISORY: connect-through-handshake scenario not executable (%s); skipped' % o.skip)
+            # the harness could not write the script for this client (it cannot predict the serial of the Hello call,
+            # or makeConnection raised): the stream does NOT hold for this scenario - a broken obligation, never silence
+            ctx.stat('cah:not-executable')
+            ctx.disagree(stream, sc, 'scenario not executable', o.skip)
             continue
         m = model_view(out[k]) if out is not None else None
         k += 1
